@@ -1072,7 +1072,8 @@ class slice(Stream):
         if self.end and self.state >= self.end:
             # we're done
             for upstream in self.upstreams:
-                upstream._remove_downstream(self)
+                if self in upstream.downstreams:
+                    upstream._remove_downstream(self)
 
 
 @Stream.register_api()
